@@ -10,6 +10,7 @@ import (
 	"bufio"
 	"context"
 	"encoding/json"
+	"errors"
 	"fmt"
 	"io"
 	"os"
@@ -497,7 +498,18 @@ func (s *stdioTransport) processMessage(ctx context.Context, line string, writer
 			return nil
 		}
 		if response != nil {
-			return s.writeResponse(response, writer)
+			err := s.writeResponse(response, writer)
+			var marshalErr *json.UnsupportedValueError
+			var typeErr *json.UnsupportedTypeError
+			if errors.As(err, &marshalErr) || errors.As(err, &typeErr) {
+				// The result could not be encoded: the request still gets an answer.
+				var probe struct {
+					ID interface{} `json:"id"`
+				}
+				_ = json.Unmarshal(rawMessage, &probe)
+				return s.writeResponse(newJSONRPCErrorResponse(probe.ID, ErrCodeInternal, err.Error(), nil), writer)
+			}
+			return err
 		}
 		s.logger.Debugf("processMessage: No response generated\n")
 
